@@ -115,7 +115,12 @@ func (f *File) readDataDesc() error {
 	if desc.Signature != dataDescriptorSignature {
 		return errors.New("data descriptor signature is missing")
 	}
-	if f.UncompressedSize >= uint32Max || desc.UncompressedSize != uint32(f.UncompressedSize) || desc.CompressedSize != uint32(f.CompressedSize) {
+	// An empty file looks the same in the first 16 bytes of either form (the
+	// upper half of the 64-bit compressed size reads as a 32-bit uncompressed
+	// size of zero). Go by the version needed to extract then: a writer that
+	// uses the 64-bit form (like NewFile below) asks for ZIP64 support.
+	ambiguous := f.UncompressedSize == 0 && f.lfh.ReaderVersion >= zip45
+	if ambiguous || f.UncompressedSize >= uint32Max || desc.UncompressedSize != uint32(f.UncompressedSize) || desc.CompressedSize != uint32(f.CompressedSize) {
 		// 64-bit
 		if _, err := f.r.ReadAt(f.ddb[dataDescriptorLen:], pos+dataDescriptorLen); err != nil {
 			return err
